@@ -392,8 +392,12 @@ def shared_cmd_ids(repo, res, rule="FLAGS"):
         # flags: the table flag equals the code flag
         for c in calls:
             env = envs.get(id(c))
-            a = [repo.text(fn.file, x).strip() for x in c["args"]]
-            sub = "subdfa" in a[0] or "subword" in a[3]
+            # flags are told apart by the DFA method they were read from (provenance), not by the name of the local holding them
+            def flag(x, env=env):
+                p = P.peel(A.resolve(x, env))
+                return p[1] if p[0] == "mcall" else "".join(repo.text(fn.file, x).split())
+            a = [flag(x) if i >= 3 else A.show(A.resolve(x, env)) for i, x in enumerate(c["args"])]
+            sub = ".subdfas" in a[0] or "lookup(" in a[0] or "subword" in a[3]
             want_cmd = "needs_subword_commands_code" if sub else "needs_top_level_commands_code"
             want_star = "needs_subword_star_code" if sub else "needs_top_level_star_code"
             ok = a[3] == want_cmd and a[5] == want_star
@@ -402,7 +406,11 @@ def shared_cmd_ids(repo, res, rule="FLAGS"):
             res.check(ok, rule, f"{rule}:{mod}:{'subword' if sub else 'main'}-table-flags", f"get_lookup_tables(.., {a[3]}, {a[4]}, {a[5]})", f"{fn.file}:{c['l']}")
         sw = [c for c in P.find_calls(fn.body, names={"write_subword_fn"})]
         if sw:
-            a = [repo.text(fn.file, x).strip() for x in sw[0]["args"]]
+            esw = envs.get(id(sw[0]))
+            a = []
+            for x in sw[0]["args"]:
+                p = P.peel(A.resolve(x, esw))
+                a.append(p[1] if p[0] == "mcall" else "".join(repo.text(fn.file, x).split()))
             res.check("needs_subword_commands_code" in a and "needs_subword_star_code" in a, rule, f"{rule}:{mod}:subword-code-flags", f"write_subword_fn({', '.join(a[1:])})", f"{fn.file}:{sw[0]['l']}")
 
 
